@@ -11,7 +11,7 @@ CFG = {
                 nontrivial=lambda p, t: t.count(" L") + t.startswith("L") >= 2 and bool(re.search(r"gconn \d+ \d+ -?\d+ 1 |block \d+ 1|cdisc|gclear", p))),
     "C02": dict(profiles=[("lifetime", 5), ("reentrant", 3), ("slots", 1)],
                 rule="a trackable referenced by at least one slot functor is destroyed (or assigned/moved/notified) while that slot or a copy exists, and a query or emission follows",
-                nontrivial=lambda p, t: bool(re.search(r"snew \d+ [iv] \d+ [mnbt] [123]", p)) and bool(re.search(r"tdel|tasg|tmasg|tnot", p))),
+                nontrivial=lambda p, t: bool(re.search(r"snew \d+ [iv] \d+ [mnbtu] [123]", p)) and bool(re.search(r"tdel|tasg|tmasg|tnot", p))),
     "C03": dict(profiles=[("reentrant", 8), ("chain", 1)],
                 rule="a slot body performs at least one action (connect, disconnect, clear, block, destroy, emit) while an emission is running (an operation event nested inside an E..L pair of the model trace)",
                 nontrivial=lambda p, t: bool(re.search(r"S \d+ [ca] \d+ [a-z]", p)) and bool(re.search(r"E\d+,\d+ (?!L)", t))),
@@ -97,6 +97,43 @@ def correspondence(v, pid, progs, exe, model_exe, label="generated"):
     return mism, stats, run, model_errs
 
 
+def coq_crosscheck(v, ran, model_exe, k=8):
+    """evaluate a sample of the programs inside Coq (vm_compute in coqc) and require the trace the
+    extracted OCaml model printed: extraction and the OCaml driver are checked, not assumed"""
+    import prog2coq
+    sample = []
+    cands = [re.sub(r"\bprobe\b", "", p) for p, m in ran if len(m) < 1500 and len(p) < 1500][:4 * k]
+    cands = [" ".join(c.split()) for c in cands]
+    for p, m in zip(cands, corr.run_model(model_exe, "sig", cands) if cands else []):
+        if m.startswith(("ERR", "PARSE")):
+            continue
+        t = prog2coq.trace_term(m)
+        if t is None:
+            continue
+        sample.append((p, m, t))
+        if len(sample) >= k:
+            break
+    if not sample:
+        return {"cases": 0}
+    L = ["From Coq Require Import List NArith Bool.", "Import ListNotations.", "Require Import Sigc.Util Sigc.SigCore.", "Local Open Scope N_scope.",
+         "Definition tr (r : res state) : option (list event) := match r with Ok st => Some (rev (trace st)) | Err _ => None end."]
+    for i, (p, m, t) in enumerate(sample):
+        L.append("Example xcheck_%d : tr (run_program 6 %s) = Some %s." % (i, prog2coq.program_term(p), t))
+        L.append("Proof. vm_compute. reflexivity. Qed.")
+    d = os.path.join(BUILD, "xcheck-%d" % os.getpid())
+    os.makedirs(d, exist_ok=True)
+    f = os.path.join(d, "xcheck.v")
+    open(f, "w").write("\n".join(L) + "\n")
+    ok, out = coq_compile_file(f)
+    import shutil
+    shutil.rmtree(d, ignore_errors=True)
+    res = {"cases": len(sample), "ok": ok}
+    if not ok:
+        res["output"] = out[-1500:]
+        res["first_program"] = sample[0][0]
+    return res
+
+
 def shrink_mismatch(pid, mm, exe, model_exe):
     pins = corr.PINS[pid]
 
@@ -156,6 +193,12 @@ def run(pid, args):
         "correspondence": stats, "pins": sorted(corr.PINS[pid]), "sanitizers": "g++ -O1 ASan+UBSan+LSan, allocation balance",
         "exhaustive": False,
     })
+    xc = coq_crosscheck(v, ran, model_exe)
+    v.coverage["extraction_crosscheck_in_coq"] = xc
+    if xc.get("cases") and not xc.get("ok"):
+        log("MACHINERY: extracted model disagrees with in-Coq evaluation: %s" % xc.get("output", "")[-600:])
+        v.finish()
+        return 2
     v.assumptions += ["the generators reach the behaviours that matter (coverage reported above, not assumed)",
                       "model errors (model predicts a memory error the implementation does not show) are reported separately and fail the run"]
     known, _fixed = known_findings()
